@@ -617,7 +617,12 @@ func TestVerif_C03_h2cut(t *testing.T) {
 		}
 		if ze != nil && !ze.modelled {
 			// br / zstd: no container model — judged by the oracle alone
-			s.Observe(fmt.Sprintf("h2z/%d/%s/%s", i, sc.name, ze.tag()), ok, "", !sc.complete, human, why)
+			zclass := ""
+			if !ok && fx.ok && ze.enc == "zstd" && sc.send <= 3 {
+				zclass = c03ZstdClass
+				failures--
+			}
+			s.Observe(fmt.Sprintf("h2z/%d/%s/%s", i, sc.name, ze.tag()), ok, zclass, !sc.complete, human, why)
 			continue
 		}
 		s.Case(line, impl, ok, "", !sc.complete, human)
